@@ -224,15 +224,18 @@ def run_shard(shard: Dict[str, Any], rep: Report) -> None:
         runner.step(s_, A.sample_random(runner.spec, rng))
     # other instances of the same class (default and sibling configurations) are constructed and used in between:
     # class-level or module-level shared state would leak into `env`
-    try:
-        for oc in E.configs(name, "quick")[:2]:
-            if oc["id"] != cid:
-                other = E.build(name, oc)
-                os_, ot_ = jax.jit(other.reset)(jax.random.PRNGKey(3))
-                jax.jit(other.step)(os_, A.as_action(other.action_spec, A.sample_random(other.action_spec, rng)))
-                rep.count("sibling_instances_built")
-    except Exception as e:
-        rep.notes.append(f"sibling instance of {name} could not be built: {e!r}"[:200])
+    def build_siblings():
+        try:
+            for oc in E.configs(name, "quick")[:2]:
+                if oc["id"] != cid:
+                    other = E.build(name, oc)
+                    os_, ot_ = jax.jit(other.reset)(jax.random.PRNGKey(3))
+                    jax.jit(other.step)(os_, A.as_action(other.action_spec, A.sample_random(other.action_spec, rng)))
+                    rep.count("sibling_instances_built")
+        except Exception as e:
+            rep.notes.append(f"sibling instance of {name} could not be built: {e!r}"[:200])
+
+    build_siblings()
     try:
         jax.jit(env.reset)(jax.random.PRNGKey(77))
         jax.jit(jax.vmap(env.reset))(jax.random.split(jax.random.PRNGKey(5), 2))
@@ -281,6 +284,9 @@ def run_shard(shard: Dict[str, Any], rep: Report) -> None:
         rep.count("fresh_instance_pairs")
         if digest_decoded(dec_pair(s, t)) != d1:
             viol("fresh_instance_step", {"call": tag})
+
+    # the last objects constructed before the new traces below are siblings, not instances of this configuration
+    build_siblings()
 
     # ---- 5. jaxpr effects ------------------------------------------------------------------------------
     try:
